@@ -36,6 +36,26 @@ class C10(EvalFamProp):
         rng = _random.Random(case.get('vseed', 0))
         pdocs = [dict(d, raw=permute(rng, d['raw'])) for d in case['docs']]
         io['perm'] = run_case(pdocs, self.WORLD, tuple(case.get('style', ['flow', 0, 0])))
+        # one evaluation context used for two consecutive builds (a different config first): the second build must
+        # not see anything of the first
+        try:
+            with WorldImpl(self.WORLD) as w:
+                ctx = EvalContext(eval_symbols=w.syms)
+                other = [dict(d, raw=permute(rng, d['raw'])) for d in case['docs'][:1]]
+                try:
+                    Config(build_root(other), eval_ctx=ctx)
+                except Exception:
+                    pass
+                del EXEC_LOG[:]
+                try:
+                    cfg = Config(build_root(case['docs']), eval_ctx=ctx)
+                    io['reuse'] = {'ok': renumber(conv_val(cfg, w, {})), 'exec': sorted(e[0] + '@' + str(e[1]) for e in EXEC_LOG)}
+                except RecursionError:
+                    io['reuse'] = {'err': 'recursion'}
+                except Exception as e:  # noqa
+                    io['reuse'] = classify_error(e)
+        except Exception as e:  # noqa
+            io['reuse'] = {'err': 'harness:' + str(e)[:80]}
         return io
 
     def oracle(self, case, io, ans):
@@ -64,6 +84,15 @@ class C10(EvalFamProp):
                     return f'the {n["kind"]} node at {n["p"]!r} survives merging but never ran in a successful build'
         if 'ok' in cfg and has_leak(cfg['ok']) and not cyc0:
             return 'a consumer received a lazy placeholder / node object instead of the evaluated object (depends on the order of keys)'
+        ru = io.get('reuse')
+        if ru is not None and not cyc0 and not str(ru.get('err', '')).startswith('harness:'):
+            if ('ok' in cfg) != ('ok' in ru):
+                return f'the same documents built with an evaluation context that was used before give {ru.get("err", "ok")} instead of {cfg.get("err", "ok")}'
+            if 'ok' in cfg and not has_leak(cfg['ok']):
+                if strip_ids(cfg['ok']) != strip_ids(ru['ok']) or cfg['ok'] != ru['ok']:
+                    return 'a build with an evaluation context that was used before differs from the build with a fresh one (values or sharing of objects)'
+                if sorted(e[0] + '@' + str(e[1]) for e in io['exec']) != ru['exec']:
+                    return 'a build with a re-used evaluation context runs a different set of dynamic nodes'
         pc = io['perm']['cfg']
         if 'ok' in pc and has_leak(pc['ok']) and not cyc0:
             return 'with permuted keys a consumer received a lazy placeholder / node object instead of the evaluated object'
